@@ -268,6 +268,8 @@ def stack_strategy():
         'prefix': st.sampled_from(['/sub', '/', '/a/b']),
         'request': st.sampled_from(['hit', 'miss', 'inner', 'wrongmethod']),
         'validator': st.booleans(),
+        # public API used after construction: the error handler is replaced / reset; the wrapper stack must survive it
+        'rehandle': st.sampled_from([None, None, 'reset', 'new']),
     })
 
 
@@ -318,6 +320,14 @@ def stack_body(case, ctx):
     except Exception as e:
         ctx.mismatch('wrapper-app-construction', 'constructing the application raised %r' % e, rc)
         return
+    if case.get('rehandle'):
+        from clastic.errors import ErrorHandler
+        try:
+            app.set_error_handler(None if case['rehandle'] == 'reset' else ErrorHandler())
+        except Exception as e:
+            ctx.mismatch('wrapper-app-construction', 'set_error_handler() after construction raised %r' % e, rc)
+            return
+        ctx.event('error-handler-replaced-after-construction')
     outer_w = ['W%d' % t for t, w in case['outer'] if w]
     inner_w = [['W%d' % t for t, w in sp if w] for sp in inner_specs]
     expected_set = list(outer_w)
